@@ -279,6 +279,8 @@ static int recv_events(m_ctx_t *c, int timeout) {
                 msg = &evt->evt;
                 fetch_ms(&msg->ts, NULL);
                 M_INFO("'%s' received %u type evt.\n", mod->name, msg->type);
+                /* Only errors consuming this very event matter, not any errno left behind by previous callbacks */
+                errno = 0;
                 p = p->process(p, c, i, evt);
             }
             err = errno; // Store any errno that happened while consuming events
